@@ -266,6 +266,9 @@ class Interp:
         for i, c in enumerate(self.comps):
             if i == me_index:
                 continue
+            if i > me_index and (c[0] in ("=", "->") or self._has_state(c)):
+                # the look-ahead evaluates later components first: order of effects not documented
+                raise Undefined("onmatch component followed by a writing/stateful component")
             if c[0] == "=" :
                 if "onmatch" in c[2] or set(c[2]) & {"latch", "onchange", "increase", "decrease", "notnone", "asbool"}:
                     raise Undefined("onmatch look-ahead across a voting assignment")
